@@ -76,6 +76,21 @@ func (e *Engine) verifyFunc(fn *ssa.Function, ct *Contract, prop string) *Run {
 			g := r.evalBool(oe, cl.Expr)
 			r.emit(o.st, "ensures:"+cl.Label, "ensures", ct.clauseProps(cl), g)
 		}
+		for _, fname := range ct.Fresh {
+			if fv, ok := vars[fname]; ok {
+				isFresh := fv.K == KPtr && (fv.P.Kind == PCell || fv.P.T == "0")
+				if fv.K == KPtr && fv.P.Kind == PHeap {
+					for _, x := range o.st.freshRefs {
+						if x == fv.P.T {
+							isFresh = true
+						}
+					}
+				}
+				if !isFresh {
+					r.emit(o.st, "ensures:fresh-"+fname, "ensures", ct.Props, "false")
+				}
+			}
+		}
 		if ct.Frame {
 			r.heapFrame(o.st, ct)
 			mod := map[string]bool{}
@@ -232,6 +247,9 @@ func (r *Run) heapFrame(st *State, ct *Contract) {
 		}
 		if whole {
 			continue
+		}
+		for _, fr := range st.freshRefs {
+			conds = append(conds, not(app("=", "x!f", fr)))
 		}
 		guard := and(append([]string{app(">", "x!f", "0")}, conds...)...)
 		goal := fmt.Sprintf("(forall ((x!f Int)) (=> %s (= (select %s x!f) (select %s x!f))))", guard, cur, old)
